@@ -158,8 +158,8 @@ def oracle(c, o):
             return f'{c["cls"]} ({o["dt"]} -> {o["ydt"]}): {what}: relative deviation {o[key]:.3g} (seed {c["seed"]})'
     if not o['gx_finite']:
         return f'{c["cls"]}: non-finite gradient'
-    if 'second_err' in o and c['cls'] in ('FourierOp',):
-        return f'FourierOp is not twice differentiable: {o["second_err"]}'
+    if 'second_err' in o:      # every operator class of the unchanged tree supports double backward ("for first and second order")
+        return f'{c["cls"]} is not twice differentiable: {o["second_err"]}'
     return None
 
 
@@ -189,8 +189,10 @@ def compare(c, o, m):
 # ---- gradients w.r.t. operator parameters ----------------------------------------------------------
 def gen_param(rng, tier):
     out = []
-    for i in range(10 if tier == 'quick' else 150):
-        c = opzoo.gen_grid(rng) if i % 2 == 0 else opzoo.gen_einsum(rng)
+    for i in range(14 if tier == 'quick' else 150):
+        c = opzoo.gen_grid(rng) if i % 2 == 0 or 10 <= i % 20 < 14 else opzoo.gen_einsum(rng)
+        # history: the operator has already been used without a graph (torch.no_grad, grid not yet requiring grad) before its grid is differentiated
+        c['history'] = 10 <= i % 20 < 14
         if c['cls'] == 'GridSamplingOp':
             c['interp'], c['complex'] = 'bilinear', False
             # keep away from the kinks of bilinear interpolation (integer pixel positions) for finite differences
@@ -208,11 +210,22 @@ def impl_param(c):
     op, in_shape = opzoo.build(c)
     if c['cls'] == 'GridSamplingOp':
         x = torch.randint(-3, 4, in_shape, generator=g).to(torch.float64)
-        p = op.grid.detach().clone().requires_grad_(True)
+        if c.get('history'):
+            with torch.no_grad():
+                (y0,) = op(x)
+                op.adjoint(torch.ones_like(y0))
+            op(x)
+            p = op.grid.requires_grad_(True)      # the operator's own grid tensor, switched to requires_grad after these uses
+            fresh = opzoo.build(c)[0]
+        else:
+            p = op.grid.detach().clone().requires_grad_(True)
+            fresh = op
 
         def f(pp):
-            op.grid = pp
-            return op(x)[0]
+            if pp is p and c.get('history'):
+                return op(x)[0]
+            fresh.grid = pp
+            return fresh(x)[0]
     else:
         import mrpro.operators as ops
         x = _rand(list(in_shape), g, torch.complex128)
@@ -228,11 +241,15 @@ def impl_param(c):
         u = torch.randint(-3, 4, list(op(x)[0].shape), generator=g).to(torch.float64)
 
         def f(pp):  # noqa: F811
-            op.grid = pp
-            return op.adjoint(u)[0]
+            if pp is p and c.get('history'):
+                return op.adjoint(u)[0]
+            fresh.grid = pp
+            return fresh.adjoint(u)[0]
     y = f(p)
     w = _rand(list(y.shape), g, y.dtype)
-    (gp,) = torch.autograd.grad(_loss(y, w), p)
+    (gp,) = torch.autograd.grad(_loss(y, w), p, allow_unused=True)
+    if gp is None:
+        return {'dev': float('inf'), 'no_grad': True}
     # central finite differences in every coordinate (real and imaginary direction)
     worst = 0.0
     flat = p.detach().reshape(-1)
@@ -254,6 +271,9 @@ def impl_param(c):
 def oracle_param(c, o):
     if 'raises' in o:
         return f'{c["cls"]}: gradient w.r.t. a parameter raised {o["raises"]}: {o.get("msg")}'
+    if o.get('no_grad'):
+        return (f'{c["cls"]}: no gradient reaches the operator parameter (grid){" after the operator had been used without a graph" if c.get("history") else ""}: '
+                'autograd returned None')
     if o['dev'] > 1e-4:
         return f'{c["cls"]}: autograd gradient w.r.t. the operator parameter differs from finite differences by {o["dev"]:.3g}'
     return None
